@@ -779,6 +779,24 @@ func ruleFetchContainers(r *Run) {
 		o.Fail(r.pos(fn.Pos()), "loop body: Match call=%v getLabels call=%v appends=%d", matchC != nil, getL != nil, nAppend)
 		return
 	}
+	// a listed container is kept at most once: the append is not inside a further loop nested in the
+	// loop over the list (a container appended once per name / per label would be read several times)
+	for _, inner := range rangeIndexLoops(fn) {
+		if inner.Header != loop.Header && inner.Blocks[appendBlk] && loop.Blocks[inner.Header] {
+			good = false
+			o.Fail(r.pos(termPos(appendBlk)), "the container is appended inside an inner loop: one listed container can be selected (and its log read) several times")
+		}
+	}
+	for _, b := range fn.Blocks {
+		for _, sc := range b.Succs {
+			if sc.Dominates(b) && sc != loop.Header && loop.Blocks[sc] {
+				if nl := naturalLoop(sc); nl[appendBlk] {
+					good = false
+					o.Fail(r.pos(termPos(appendBlk)), "the container is appended inside an inner loop: one listed container can be selected (and its log read) several times")
+				}
+			}
+		}
+	}
 	if matchC.Call.Args[0] != ssa.Value(getL) {
 		good = false
 		o.Fail(r.pos(matchC.Pos()), "Match is applied to %s, not to the labels of the ranged container", describe(matchC.Call.Args[0], 0))
